@@ -226,7 +226,7 @@ static float sig(tctx *T,int k,long t,long rate){
   T->lcg=T->lcg*1103515245u+12345u;
   return 0.35f*sinf(6.2831853f*(330.f+90.f*k)*(float)t/(float)rate)+0.2f*(((T->lcg>>8)&0xffff)/32768.f-1.f)+((t%900)==(450+17*k)?0.7f:0.f);
 }
-typedef struct { int ch; long rate; int mode; float q; long mx,nom,mn; int rounds; int chunk; long quiet_after; long resv_bits; float qamp; long quiet_before; } enc_cfg;   /* qamp: amplitude of the quiet parts (0: 1e-5); quiet_before: the first quiet_before samples are quiet too */   /* mode 0: vbr, 1: managed init, 2: 3-step managed setup + ctl, 3: managed with hard minimum and a small reservoir (RATEMANAGE2_SET); input is near silence (1e-5 sine) from sample quiet_after on (0: never) */
+typedef struct { int ch; long rate; int mode; float q; long mx,nom,mn; int rounds; int chunk; long quiet_after; long resv_bits; float qamp; long quiet_before; unsigned silent_mask; } enc_cfg;   /* silent_mask: channels that are exact digital zero from the first sample */   /* qamp: amplitude of the quiet parts (0: 1e-5); quiet_before: the first quiet_before samples are quiet too */   /* mode 0: vbr, 1: managed init, 2: 3-step managed setup + ctl, 3: managed with hard minimum and a small reservoir (RATEMANAGE2_SET); input is near silence (1e-5 sine) from sample quiet_after on (0: never) */
 
 static void body_enc(tctx *T,const enc_cfg *c){
   vorbis_info vi; vorbis_comment vc; vorbis_dsp_state vd; vorbis_block vb; ogg_packet op,h1,h2,h3; int r=0,round; long done=0;
@@ -266,7 +266,7 @@ static void body_enc(tctx *T,const enc_cfg *c){
     if(!last){
       float **b=0; long j; int k;
       API(b=vorbis_analysis_buffer(&vd,c->chunk));
-      for(j=0;j<c->chunk;j++)for(k=0;k<c->ch;k++){ float v=sig(T,k,done+j,c->rate); b[k][j]=((c->quiet_after&&done+j>=c->quiet_after)||done+j<c->quiet_before)?(c->qamp>0.f?c->qamp:1e-5f)*sinf(0.3f*(float)(done+j)+(float)k):v; }   /* near silence, not exact zeros: the analysis still does its full work */
+      for(j=0;j<c->chunk;j++)for(k=0;k<c->ch;k++){ float v=sig(T,k,done+j,c->rate); b[k][j]=((c->quiet_after&&done+j>=c->quiet_after)||done+j<c->quiet_before)?(c->qamp>0.f?c->qamp:1e-5f)*sinf(0.3f*(float)(done+j)+(float)k):v; if((c->silent_mask>>k)&1u)b[k][j]=0.f; }   /* near silence, not exact zeros: the analysis still does its full work */
       API(r=vorbis_analysis_wrote(&vd,c->chunk)); OBS_I(r); done+=c->chunk;
     }else{ API(r=vorbis_analysis_wrote(&vd,0)); OBS_I(r); }
     STEP("drain");
@@ -414,6 +414,50 @@ static void body_vf(tctx *T,const vf_cfg *c){
   API(r=ov_clear(&vf)); OBS_I(r); OBS_I(m.nclose); OBS_I(m.nread); OBS_I(m.nseek);
 }
 
+/* comment handling: tags with empty and non-empty values, raw comments, queries, header packets */
+static void obs_comments(vorbis_comment *vc){
+  int i; OBS_I(vc->comments);
+  for(i=0;i<vc->comments;i++){ OBS_I(vc->comment_lengths[i]); OBS_B(vc->user_comments[i],vc->comment_lengths[i]); OBS_I((long)strlen(vc->user_comments[i])); }
+}
+static void body_cmt(tctx *T){
+  static const char *tags[6][2]={{"TITLE","c18"},{"COMMENT",""},{"ARTIST","someone"},{"EMPTY",""},{"comment","lower"},{"X",""}};
+  vorbis_info vi; vorbis_comment vc; vorbis_dsp_state vd; ogg_packet h1,h2,h3,cp; int r=0,i,n=0; char *q=0;
+  (void)T;
+  STEP("tags");
+  API(vorbis_comment_init(&vc));
+  for(i=0;i<6;i++){ API(vorbis_comment_add_tag(&vc,tags[i][0],tags[i][1])); obs_comments(&vc); }
+  API(vorbis_comment_add(&vc,"RAW=")); API(vorbis_comment_add(&vc,"NOEQUALS")); obs_comments(&vc);
+  STEP("query");
+  for(i=0;i<6;i++){
+    API(n=vorbis_comment_query_count(&vc,tags[i][0])); OBS_I(n);
+    API(q=vorbis_comment_query(&vc,tags[i][0],0)); OBS_I(q!=0); if(q)OBS_B(q,strlen(q));
+    API(q=vorbis_comment_query(&vc,tags[i][0],1)); OBS_I(q!=0); if(q)OBS_B(q,strlen(q));
+  }
+  API(q=vorbis_comment_query(&vc,"RAW",0)); OBS_I(q!=0); if(q)OBS_B(q,strlen(q));
+  STEP("hdrout");
+  memset(&cp,0,sizeof(cp));
+  API(r=vorbis_commentheader_out(&vc,&cp)); OBS_I(r);
+  if(!r){ OBS_PKT(&cp); _ogg_free(cp.packet); }
+  STEP("headers");
+  API(vorbis_info_init(&vi));
+  API(r=vorbis_encode_init_vbr(&vi,1,8000,0.3f)); OBS_I(r);
+  if(!r){
+    API(r=vorbis_analysis_init(&vd,&vi)); OBS_I(r);
+    API(r=vorbis_analysis_headerout(&vd,&vc,&h1,&h2,&h3)); OBS_I(r);
+    if(!r){ OBS_PKT(&h1); OBS_PKT(&h2); }
+    STEP("reparse");
+    if(!r){ vorbis_info vi2; vorbis_comment vc2;
+      API(vorbis_info_init(&vi2)); API(vorbis_comment_init(&vc2));
+      API(r=vorbis_synthesis_headerin(&vi2,&vc2,&h1)); OBS_I(r);
+      API(r=vorbis_synthesis_headerin(&vi2,&vc2,&h2)); OBS_I(r);
+      obs_comments(&vc2); if(vc2.vendor)OBS_B(vc2.vendor,strlen(vc2.vendor));
+      API(vorbis_comment_clear(&vc2)); API(vorbis_info_clear(&vi2)); }
+    API(vorbis_dsp_clear(&vd));
+  }
+  STEP("clear");
+  API(vorbis_comment_clear(&vc)); API(vorbis_info_clear(&vi));
+}
+
 /* every lapped seek variant from every interesting handle state, each on a fresh handle (one g1 step per combination) */
 static void body_lap(tctx *T,int st){
   static const char vn[6]={'p','P','t','T','r','x'}; const stream_t *s=&g_st[st]; int state,v;
@@ -456,9 +500,9 @@ static void body_lap(tctx *T,int st){
   }
 }
 
-enum { B_ENCA=0,B_ENCB,B_ENCC,B_ENCD,B_ENCM,B_ENCH,B_ENCW,B_ENCQ,B_ENCP,B_ENCT,B_ENCS,B_DECA,B_DECB,B_DECF,B_DECH,B_DECL,B_DECR,B_VFA,B_VFB,B_VFF,B_VFC,B_VFL,B_VFR,B_VLAP,B_VLAQ,NBODY };
-static const char *g_bname[NBODY]={"ENCA","ENCB","ENCC","ENCD","ENCM","ENCH","ENCW","ENCQ","ENCP","ENCT","ENCS","DECA","DECB","DECF","DECH","DECL","DECR","VFA","VFB","VFF","VFC","VFL","VFR","VLAP","VLAQ"};
-static const enc_cfg g_enc[9]={
+enum { B_ENCA=0,B_ENCB,B_ENCC,B_ENCD,B_ENCM,B_ENCH,B_ENCW,B_ENCQ,B_ENCP,B_ENMR,B_ENML,B_ENM6,B_ENM0,B_ENCT,B_ENCS,B_DECA,B_DECB,B_DECF,B_DECH,B_DECL,B_DECR,B_VFA,B_VFB,B_VFF,B_VFC,B_VFL,B_VFR,B_VLAP,B_VLAQ,B_CMT,NBODY };
+static const char *g_bname[NBODY]={"ENCA","ENCB","ENCC","ENCD","ENCM","ENCH","ENCW","ENCQ","ENCP","ENMR","ENML","ENM6","ENM0","ENCT","ENCS","DECA","DECB","DECF","DECH","DECL","DECR","VFA","VFB","VFF","VFC","VFL","VFR","VLAP","VLAQ","CMT"};
+static const enc_cfg g_enc[13]={
   {2,44100,0,0.4f,0,0,0,3,1024,0,0},            /* ENCA stereo 44.1k VBR */
   {1,8000,2,0,-1,12000,-1,3,1024,0,0},          /* ENCB mono 8k, 3-step managed setup + ctl */
   {6,44100,0,0.3f,0,0,0,2,1024,0,0},            /* ENCC 5.1 VBR */
@@ -467,7 +511,11 @@ static const enc_cfg g_enc[9]={
   {2,96000,0,0.5f,0,0,0,7,4096,0,0},               /* ENCH stereo 96k VBR q0.5, 0.3 s (Nyquist beyond the end of the ATH table) */
   {1,64000,0,0.5f,0,0,0,5,4096,0,0},               /* ENCW mono 64k VBR q0.5, 0.3 s */
   {1,44100,0,0.4f,0,0,0,5,2048,6144,0,2e-8f,0},    /* ENCQ mono 44.1k: ends in a 2e-8 amplitude tail (end-of-stream LPC sees energy below its epsilon, not exact silence) */
-  {1,44100,0,0.4f,0,0,0,5,2048,0,0,2e-8f,6144}     /* ENCP mono 44.1k: starts with a 2e-8 amplitude lead-in (pre-extrapolation LPC takes the same early exit) */
+  {1,44100,0,0.4f,0,0,0,5,2048,0,0,2e-8f,6144},    /* ENCP mono 44.1k: starts with a 2e-8 amplitude lead-in (pre-extrapolation LPC takes the same early exit) */
+  {2,44100,1,0,-1,96000,-1,3,1024,0,0,0,0,2u},      /* ENMR stereo ABR 96k, right channel digitally silent (managed: all PACKETBLOBS floor fits are consulted) */
+  {2,44100,1,0,160000,112000,64000,3,1024,0,0,0,0,1u}, /* ENML stereo managed with min/max, left channel digitally silent */
+  {6,44100,1,0,-1,256000,-1,2,1024,0,0,0,0,32u},    /* ENM6 5.1 ABR, LFE (channel 5) digitally silent */
+  {1,44100,1,0,-1,64000,-1,3,1024,0,0,0,0,1u}       /* ENM0 mono ABR, all digital silence */
 };
 static const dec_cfg g_dec[6]={ {ST_S1,5,2,0},{ST_S2,5,-1,0},{ST_F0,5,1,0},{ST_S2,4,-1,1},{ST_PL,5,-1,0},{ST_PR,5,3,0} };
 static const vf_cfg g_vf[6]={ {ST_S1,0,5,0},{ST_S2,1,9,2},{ST_F0,1,7,1},{ST_CH,0,11,0},{ST_PL,1,6,0},{ST_PR,0,10,2} };
@@ -475,7 +523,8 @@ static int body_stream(int b){ if(b>=B_DECA&&b<=B_DECR)return g_dec[b-B_DECA].st
 static int body_id(const char *n){ int i; for(i=0;i<NBODY;i++)if(!strcmp(n,g_bname[i]))return i; return -1; }
 static void run_body(tctx *T){
   int b=T->body;
-  if(b<=B_ENCP)body_enc(T,&g_enc[b]);
+  if(b<=B_ENM0)body_enc(T,&g_enc[b]);
+  else if(b==B_CMT)body_cmt(T);
   else if(b==B_ENCT)body_tiny(T,0);
   else if(b==B_ENCS)body_tiny(T,1);
   else if(b<=B_DECR)body_dec(T,&g_dec[b-B_DECA]);
@@ -677,12 +726,24 @@ static void do_case(long idx,char *line){
   if(sscanf(line,"%15s %199s",kind,btxt)!=2){ printf("%ld BADCASE\n",idx); return; }
   n=parse_bodies(btxt,b);
   if(n<=0){ printf("%ld BADCASE bodies %s (%d)\n",idx,btxt,n); return; }
-  for(i=0;i<n;i++)if(solo_get(b[i])){ printf("%ld SOLOFAIL body=%s rc=%d\n",idx,g_bname[b[i]],g_crashdetail); return; }
+  for(i=0;i<n;i++)if(solo_get(b[i])){
+    /* the body does not even complete alone (no scheduler, no fill): valid API usage on valid input that crashes or hangs */
+    int pat=-1; unsigned w=0;
+    if(!strcmp(kind,"fill")&&sscanf(line,"%*s %*s %d",&pat)==1){
+      int rc=run_child(b,1,0,0,0,NULL,0,pat);
+      if(rc!=RC_OK){ printf("%ld viol key=fill_%s:%s:0x%02x|pattern=0x%02x|solo body %s under heap fill 0x%02x: %s (%d); it does not complete without fill either\n",idx,rc==RC_TIMEOUT?"timeout":"crash",g_bname[b[0]],pat,pat,g_bname[b[0]],pat,rc==RC_TIMEOUT?"did not terminate":"crashed",g_crashdetail); return; }
+    }
+    if(!strcmp(kind,"sfill")&&sscanf(line,"%*s %*s %x",&w)==1){
+      int rc; g_sfill_on=1; g_sfill_word=w; rc=run_child(b,1,0,0,0,NULL,0,-1); g_sfill_on=0;
+      if(rc!=RC_OK){ printf("%ld viol key=stackfill_%s:%s:0x%08x|word=0x%08x|solo body %s with stack pre-filled with 0x%08x: %s (%d); it does not complete without pre-fill either\n",idx,rc==RC_TIMEOUT?"timeout":"crash",g_bname[b[0]],w,w,g_bname[b[0]],w,rc==RC_TIMEOUT?"did not terminate":"crashed",g_crashdetail); return; }
+    }
+    printf("%ld viol key=solo_crash:%s|body=%s|body %s run alone (no scheduler, no fill) did not complete: signal/exit %d\n",idx,g_bname[b[i]],g_bname[b[i]],g_bname[b[i]],g_crashdetail); return;
+  }
   x_alloc();
   if(!strcmp(kind,"solo")){
     /* solo <body>: reference digests and point counts (run twice: determinism of the reference itself) */
     thres first=g_solo[b[0]]; char hx[40]; int det;
-    g_solo_have[b[0]]=0; if(solo_get(b[0])){ printf("%ld SOLOFAIL body=%s\n",idx,g_bname[b[0]]); return; }
+    g_solo_have[b[0]]=0; if(solo_get(b[0])){ printf("%ld viol key=solo_crash:%s|body=%s|body %s run alone did not complete the second time: signal/exit %d\n",idx,g_bname[b[0]],g_bname[b[0]],g_bname[b[0]],g_crashdetail); return; }
     det=!memcmp(&first.dig,&g_solo[b[0]].dig,sizeof(h128))&&first.napi==g_solo[b[0]].napi&&first.pc[3]==g_solo[b[0]].pc[3];
     h_hex(&first.dig,hx);
     printf("%ld ok body=%s dig=%s steps=%ld api=%ld allocs=%ld nonzero=%ld padded=%ld tinypk=%ld tinyempty=%ld lap2ok=%ld fenv=%d det=%d\n",idx,g_bname[b[0]],hx,first.nsteps,first.napi,first.pc[3]-first.pc[2],first.nonzero,first.padded,first.tiny_packets,first.tiny_empty,first.lap2ok,first.fenv_bad,det);
@@ -693,7 +754,7 @@ static void do_case(long idx,char *line){
     int pat=-1,rc; char hx[40],hs[40];
     sscanf(line,"%*s %*s %d",&pat);
     rc=run_child(b,1,0,0,0,NULL,0,pat);
-    if(rc!=RC_OK){ printf("%ld viol key=fill_%s:%s|pattern=0x%02x|solo body %s under heap fill: %s (%d)\n",idx,rc==RC_TIMEOUT?"timeout":"crash",g_bname[b[0]],pat,g_bname[b[0]],rc==RC_TIMEOUT?"did not terminate":"crashed",g_crashdetail); return; }
+    if(rc!=RC_OK){ printf("%ld viol key=fill_%s:%s:0x%02x|pattern=0x%02x|solo body %s under heap fill 0x%02x: %s (%d)\n",idx,rc==RC_TIMEOUT?"timeout":"crash",g_bname[b[0]],pat,pat,g_bname[b[0]],pat,rc==RC_TIMEOUT?"did not terminate":"crashed",g_crashdetail); return; }
     h_hex(&R->th[0].dig,hx); h_hex(&g_solo[b[0]].dig,hs);
     if(strcmp(hx,hs)){
       int k; const char *sn="?"; const thres *a=&R->th[0],*s=&g_solo[b[0]];
@@ -710,7 +771,7 @@ static void do_case(long idx,char *line){
     { long hit; stack_prefill(); hit=stack_probe(); if(hit<8000){ printf("%ld MACHINERY stack pre-fill not effective (probe saw %ld of 16384 words)\n",idx,hit); g_sfill_on=0; return; } }
     rc=run_child(b,1,0,0,0,NULL,0,-1);
     g_sfill_on=0;
-    if(rc!=RC_OK){ printf("%ld viol key=stackfill_%s:%s|word=0x%08x|solo body %s with pre-filled stack: %s (%d)\n",idx,rc==RC_TIMEOUT?"timeout":"crash",g_bname[b[0]],w,g_bname[b[0]],rc==RC_TIMEOUT?"did not terminate":"crashed",g_crashdetail); return; }
+    if(rc!=RC_OK){ printf("%ld viol key=stackfill_%s:%s:0x%08x|word=0x%08x|solo body %s with stack pre-filled with 0x%08x: %s (%d)\n",idx,rc==RC_TIMEOUT?"timeout":"crash",g_bname[b[0]],w,w,g_bname[b[0]],w,rc==RC_TIMEOUT?"did not terminate":"crashed",g_crashdetail); return; }
     h_hex(&R->th[0].dig,hx); h_hex(&g_solo[b[0]].dig,hs);
     if(strcmp(hx,hs)){
       int k; const char *sn="?"; const thres *a=&R->th[0],*s=&g_solo[b[0]];
